@@ -26,10 +26,10 @@ Definition run_cli_op (p : proto) (m : mode) (st : cstate) (op : list (list N)) 
           let st0 := push_scripts st ws fs rs in
           if is h "call" then
             let '(res, st1) := call p m st0 req bg in
-            (show_call_result res ++ s2l " w=" ++ show_hex (accepted (wio_ st1)), st1)
+            (show_call_result res ++ s2l " w=" ++ show_hex (accepted (wio_ st1)) ++ s2l " q=" ++ show_dec (len (rq st1)), st1)
           else if is h "typed" then
             let '(res, st1) := typed p m st0 req bg in
-            (show_typed_result res ++ s2l " w=" ++ show_hex (accepted (wio_ st1)), st1)
+            (show_typed_result res ++ s2l " w=" ++ show_hex (accepted (wio_ st1)) ++ s2l " q=" ++ show_dec (len (rq st1)), st1)
           else (err "op", st)
       | _, _, _, _, _ => (err "callargs", st)
       end
